@@ -108,7 +108,7 @@ inductive Res where
   | stat (s : StatInfo)
   | data (d : List UInt8)
   | str (s : Str)
-  | tree (es : List (Str × Kind))
+  | tree (es : List (Str × Kind × Nat))   -- path string, kind, depth below the walk root
   | blocked                     -- the call never returns (open of a fifo without a peer)
 deriving Inhabited
 
@@ -149,15 +149,15 @@ def removeAllNotDir (w : World) (p : Str) : Res :=
 
 /-- pre-order listing as `filepath.WalkDir` produces it (children sorted by name);
     `fuel` bounds the depth -/
-def listFrom (fs : FS) : Nat → Path → Str → List (Str × Kind)
-  | 0, _, _ => []
-  | fuel+1, p, s =>
+def listFrom (fs : FS) : Nat → Nat → Path → Str → List (Str × Kind × Nat)
+  | 0, _, _, _ => []
+  | fuel+1, depth, p, s =>
     match fs.get p with
     | none => []
     | some n =>
       if n.kind == .dir then
-        (s, n.kind) :: (sortStrs (fs.children p)).flatMap (fun c => listFrom fs fuel (p ++ [c]) (join s c))
-      else [(s, n.kind)]
+        (s, n.kind, depth) :: (sortStrs (fs.children p)).flatMap (fun c => listFrom fs fuel (depth + 1) (p ++ [c]) (join s c))
+      else [(s, n.kind, depth)]
 
 def step (w : World) : Sys → Res × World
   | .lstat p =>
@@ -311,7 +311,7 @@ def step (w : World) : Sys → Res × World
     | .err e => (.err e, w)
     | .ok q => match w.fs.get q with
       | none => (.err .ENOENT, w)
-      | some _ => (.tree (listFrom w.fs 64 q p), w)
+      | some _ => (.tree (listFrom w.fs 64 0 q p), w)
   | .mkdtemp dir pfx =>
     let name := join dir (pfx ++ b!"0000000000")
     match resolve w name false with
